@@ -52,6 +52,8 @@ def in_scope(prop, b):
     if ev == "Crash":
         # the board cannot even be read any more: every history property is violated at once
         return prop in ("C04", "C12")
+    if prop == "C07":
+        return ev == "Search"
     if prop == "C01":
         return ev == "Moves" and bool(d & {"result", "failed"})
     if prop == "C03":
@@ -77,7 +79,9 @@ def in_scope(prop, b):
     if prop == "C12":
         return bool(d & {"sum", "inv"})
     if prop == "C16":
-        if ev == "Apply":
+        if ev in ("Apply", "Undo"):
+            # "advances by exactly one per move made and retreats by one per undo"; the clock after an undo is
+            # again the number of plies since the last capture or pawn move
             return bool(d & {"hm", "fm"}) or overflow
         if overflow:
             return True
@@ -85,6 +89,9 @@ def in_scope(prop, b):
     if prop == "C17":
         if ev in ("Count", "Uncount"):
             return "result" in d or "seen" in d or failed
+        if ev == "CloneUndo" and (b.get("history_tail") or [{}])[-1].get("reg"):
+            # unregistering on a copy of the board (an adjourned game, a search task) is the same inverse
+            return failed or "seen" in d
         if why == "draw by repetition not reported":
             return True
         if why == "draw reported too early":
@@ -207,6 +214,11 @@ def c04(ctx):
     # "to any nesting depth": games of several hundred plies (counters beyond 255) taken back completely
     bad3, ev3, h3, sk3 = run_traces(ctx, "clock", 4 if quick else 8, 2 if quick else 8, 340, label="long")
     absorb_bad(ctx, bad3)
+    # scripted shuffles (triangulations: the same position with either side to move), registered and then taken
+    # back completely, unregistering on the way
+    bad4, ev4, h4, sk4 = run_traces(ctx, "scripts", 1, 0, 0, label="scripts")
+    absorb_bad(ctx, bad4)
+    ev2 += ev4
     ev2 += ev3
     h2 += h3
     ctx.evaluations += ev + ev2
